@@ -29,10 +29,10 @@ Definition P_storage (progress : bool) : parallel_glue :=
 Definition usable (np : nproc) (ncpu : nat) : Prop :=
   match np with NPInt n => 1 <= n | NPAuto => 1 <= ncpu end.
 
-Lemma usable_valid_refine np ncpu : usable np ncpu -> valid_nproc P_refine np ncpu.
+Lemma usable_valid_refine np ncpu ntasks : usable np ncpu -> valid_nproc P_refine np ncpu ntasks.
 Proof. destruct np as [n|]; simpl; intros H; right; exact H. Qed.
 
-Lemma usable_valid_storage progress np ncpu : usable np ncpu -> valid_nproc (P_storage progress) np ncpu.
+Lemma usable_valid_storage progress np ncpu ntasks : usable np ncpu -> valid_nproc (P_storage progress) np ncpu ntasks.
 Proof. destruct np as [n|]; simpl; intros H; right; exact H. Qed.
 
 (* both settings of `progress` gather by submission index *)
@@ -52,10 +52,16 @@ Proof.
 Qed.
 
 (* max_workers = None if num_processes == "auto" else num_processes *)
-Lemma workers_rule np ncpu :
-  workers P_refine np ncpu = match np with NPAuto => ncpu | NPInt n => n end /\
-  (forall progress, workers (P_storage progress) np ncpu = match np with NPAuto => ncpu | NPInt n => n end).
+Lemma workers_rule np ncpu ntasks :
+  workers P_refine np ncpu ntasks = match np with NPAuto => ncpu | NPInt n => n end /\
+  (forall progress, workers (P_storage progress) np ncpu ntasks = match np with NPAuto => ncpu | NPInt n => n end).
 Proof. split; [|intros progress]; reflexivity. Qed.
+
+(* the worker count does not depend on the number of tasks and is positive for every usable num_processes: in
+   particular an empty candidate list / storage is handled by every process count *)
+Lemma workers_positive np ncpu ntasks :
+  usable np ncpu -> 1 <= workers P_refine np ncpu ntasks /\ forall progress, 1 <= workers (P_storage progress) np ncpu ntasks.
+Proof. destruct np; simpl; intros H; (split; [|intros progress]); exact H. Qed.
 
 (* both branches iterate over the same argument, in its order *)
 Lemma iterate_same_argument :
@@ -134,6 +140,31 @@ Section RefineOptions.
     rewrite (proj2 (refine_options_par_eq_ser o np2 ncpu2 sigma2 cands H2)). reflexivity.
   Qed.
 End RefineOptions.
+
+(* ---- refine_droplets: the candidate objects handed in by the caller -------------------------- *)
+Section RefineCandidates.
+  (* `task d c` = what the worker call d returns for candidate c and the state of the droplet object it worked on
+     afterwards; whether that object is the caller's candidate is the generated fact refine_copies_candidate *)
+  Variables candidate outcome_t : Type.
+  Variable is_none : outcome_t -> bool.
+  Variable task : string -> candidate -> outcome_t * candidate.
+
+  (* results and the caller's candidate list after refine_droplets(field, cands, num_processes = np) *)
+  Definition refine_droplets_with_candidates (np : nproc) (ncpu : nat) (sigma : list nat) (cands : list candidate)
+    : outcome (list outcome_t * list candidate) :=
+    mapped_with_arguments is_none P_refine refine_copies_candidate (task rd_serial_call) np ncpu sigma cands.
+
+  Theorem refine_candidates_par_eq_ser np ncpu sigma cands :
+    usable np ncpu ->
+    refine_droplets_with_candidates np ncpu sigma cands
+    = Done (filter (fun r => negb (is_none r)) (map (fun c => fst (task rd_serial_call c)) cands), cands).
+  Proof.
+    intros Hu. unfold refine_droplets_with_candidates.
+    change refine_copies_candidate with true.
+    rewrite mapped_with_arguments_par_eq_ser;
+      [reflexivity | reflexivity | reflexivity | apply usable_valid_refine; exact Hu].
+  Qed.
+End RefineCandidates.
 
 (* ---- EmulsionTimeCourse.from_storage -------------------------------------------------------- *)
 Section Storage.
